@@ -206,6 +206,8 @@ def build(recipe, repo):
                 for j in range(op[1]):
                     nm = r.choice(['W%d' % (j + 1), 'w %2d' % (j + 1), 'AB%3d' % (j + 7), 'well%d' % j, '%5s' % ('x%d' % j), 'Zz%d' % j])
                     npt = r.randint(2, 6)
+                    if j == 0: npt0 = npt
+                    elif j == 1 and npt == npt0: npt = 2 if npt0 != 2 else 5      # different numbers of track points
                     p = np.array([r.uniform(x0[0], x1[0]), r.uniform(x0[1], x1[1]), top + r.choice([0.0, 3.0])])
                     pts = [p.copy()]
                     for _ in range(npt - 1):
@@ -330,6 +332,21 @@ def check_roundtrip(g, tables, tmpdir, tag='g'):
     bnl, bcnl = list(g.block_name_list), list(g.block_connection_name_list)
     try: g.write(f1)
     except Exception as e: return ('write', 'write raised %s: %s' % (type(e).__name__, e), 'a geometry inside the quantifier is written'), a, None, None
+    # results must not depend on files read earlier in the process: first write and read another geometry with two
+    # wells of different lengths, and require ITS wells back point for point
+    from mulgrids import well as _well
+    pr = mulgrid().rectangular([50., 60.], [70.], [10., 20.])
+    ptracks = [('PR  1', [[5., 5., 0.], [5., 6., -20.]]), ('PR  2', [[80., 30., 0.], [81., 31., -5.], [82., 32., -12.5], [83., 33., -28.]])]
+    for nm, pts in ptracks: pr.add_well(_well(nm, [np.array(q) for q in pts]))
+    fp = os.path.join(tmpdir, tag + '_primer.dat')
+    try:
+        pr.write(fp); pq = quiet(mulgrid, fp)
+        got = [(w.name, [[float(x) for x in q] for q in w.pos]) for w in pq.welllist]
+    except Exception as e:
+        return ('read', 'write/read of a two-well geometry raised %s: %s' % (type(e).__name__, e), 'the written file is read back', 'several-wells'), a, f1, None
+    if got != ptracks:
+        return ('read_wells', 'two wells with 2 and 4 track points %r re-read as %s' % (
+            [(n, len(p)) for n, p in ptracks], [(n, len(p)) for n, p in got]), 'same well tracks, point for point', 'several-wells'), a, f1, None
     try: h = quiet(mulgrid, f1)
     except Exception as e: return ('read', 'reading the written file raised %s: %s' % (type(e).__name__, e), 'the written file is read back'), a, f1, None
     b = abstract(h)
@@ -376,8 +393,10 @@ def check_roundtrip(g, tables, tmpdir, tag='g'):
     wn = [('%' + spec['well'][1][0]) % w[0] for w in a['wells']]
     if wn != [w[0] for w in b['wells']]: return ('read_wells', 'well names %r -> %r' % (wn, [w[0] for w in b['wells']]), 'same wells in the same order'), a, f1, None
     for (nm, pts), (_, pts2) in zip(a['wells'], b['wells']):
-        if len(pts) != len(pts2) or not all(close(p[i], q[i], pw[1 + i]) for p, q in zip(pts, pts2) for i in range(3)):
-            return ('read_wells', 'well %r track %r -> %r' % (nm, pts, pts2), 'same well track'), a, f1, None
+        if len(pts) != len(pts2):
+            return ('read_wells', 'well %r: %d track points -> %d' % (nm, len(pts), len(pts2)), 'same well track, point for point', 'several-wells' if len(a['wells']) > 1 else 'wells'), a, f1, None
+        if not all(close(p[i], q[i], pw[1 + i]) for p, q in zip(pts, pts2) for i in range(3)):
+            return ('read_wells', 'well %r track %r -> %r' % (nm, pts[:8], pts2[:8]), 'same well track'), a, f1, None
     if list(h.block_name_list) != bnl:
         return ('setup_block_name_index', 'block_name_list differs (%d -> %d names)' % (len(bnl), len(h.block_name_list)), 'identical block name list'), a, f1, None
     if list(h.block_connection_name_list) != bcnl:
@@ -402,9 +421,9 @@ def check_roundtrip(g, tables, tmpdir, tag='g'):
                     'for a geometry in feet the file holds feet and the re-read geometry is in metres'), a, f1, None
     # "reading it back" through the read() METHOD of objects that already hold a geometry: the object that wrote the
     # file, and an object holding a different geometry; both must end up exactly as the fresh mulgrid(filename)
-    from mulgrids import well as _well
     other = mulgrid().rectangular([7., 9., 11.], [13., 17.], [3., 4., 5.], convention=ha['conv'], atmos_type=(ha['atm'] + 1) % 3)
     other.add_well(_well('OLD 1', [np.array([1., 2., 0.]), np.array([1., 2., -9.])]))
+    other.add_well(_well('OLD 2', [np.array([3., 2., 0.]), np.array([3., 2., -4.]), np.array([3., 3., -9.])]))
     for who, obj in (('an object holding a different geometry', other), ('the object that wrote the file', g)):
         try: quiet(obj.read, f1)
         except Exception as e:
